@@ -238,6 +238,8 @@ WORKER_MENU = {
     # one resource name split over two ids with unequal quantities: 'any' requests
     # smaller than what the first id holds, and requests spanning both ids
     "Cid21": dict(CPU__a=2, CPU__b=1),
+    # room for one and a half of a {CPU 2, GPU 1} request
+    "C3G2": dict(CPU=3, GPU=2),
 }
 
 
@@ -255,19 +257,23 @@ def s_res(policies, seed=0, full=False):
         strat_sets.append([strat(1, **r1), strat(3, **r2)])
     strat_sets.append([strat(2, GPU__g0=1)])
     strat_sets.append([strat(1, GPU__g0=1), strat(2, CPU=1)])
+    # two types in unequal amounts, listed in both orders
+    strat_sets.append([strat(2, CPU=2, GPU=1)])
+    strat_sets.append([strat(2, GPU=1, CPU=2)])
     clusters = [
         cluster([WORKER_MENU["C1G1"]]),
         cluster([WORKER_MENU["C2"], WORKER_MENU["C1Gid"]]),
         cluster([WORKER_MENU["C1"]], [WORKER_MENU["C2G1"]]),
         cluster([WORKER_MENU["C1Gid"]], [WORKER_MENU["C1G1"]]),
         cluster([WORKER_MENU["Cid21"]]),
+        cluster([WORKER_MENU["C3G2"]]),
     ]
     ns = (1, 2, 3) if full else (1, 2)
     for n in ns:
         names = names_for(n, seed)
         if n == 3 and not full:
             continue
-        sets_n = strat_sets if n <= 2 else strat_sets[:6] + strat_sets[-2:]
+        sets_n = strat_sets if n <= 2 else strat_sets[:6] + strat_sets[-4:]
         for edges in shapes[n]:
             for combo in itertools.product(range(len(sets_n)), repeat=n):
                 if n == 2 and not full and abs(combo[0] - combo[1]) > 6:
@@ -474,8 +480,16 @@ def s_plan(policies, seed=0, max_n=3, with_cond=True, clusters=("1x1", "2w"),
             yield w
 
 
+def two_sinks(n, edges):
+    """Shapes in which one sink can be cancelled while another part of the graph is
+    still alive."""
+    sinks = [k for k in range(n) if not any(i == k for i, _j in edges)]
+    return len(sinks) >= 2
+
+
 def s_adv(seed=0, max_n=3, bound=2, cap=1500, modes=None, clusters=("1x1", "2p"),
-          releases=("one", "two@1"), cancel=False):
+          releases=("one", "two@1"), cancel=False, min_n=1, delays=(0, 1, 3),
+          shape_filter=None):
     """Worlds whose scheduler is the tape-driven adversary of vf/adv.py: every legal
     decision sequence (bounded deviations from 'place now') over small DAGs."""
     modes = modes or {
@@ -483,16 +497,21 @@ def s_adv(seed=0, max_n=3, bound=2, cap=1500, modes=None, clusters=("1x1", "2p")
         "retract": {"retract": True},
         "rtg+retract": {"retract": True, "rtg": True},
     }
-    for n in range(1, max_n + 1):
+    for n in range(min_n, max_n + 1):
         names = names_for(n, seed)
         for edges in dag_shapes(n):
+            if shape_filter is not None and not shape_filter(n, edges):
+                continue
             strategies = [[strat(2 + (k % 2), CPU=1)] for k in range(n)]
+            # the first task has a second, slower strategy: a re-placement may change
+            # the strategy (and with it the runtime) of a task that is still SCHEDULED
+            strategies[0] = [strat(2, CPU=1), strat(4, CPU=1)]
             for ck in clusters:
                 for rk in releases:
                     wl = workload_from_dag(names, edges, strategies, RELEASES[rk],
                                            (100, 100))
                     for mk, mode in modes.items():
-                        adv = dict(mode, delays=[0, 1, 3], cancel=cancel)
+                        adv = dict(mode, delays=list(delays), cancel=cancel)
                         fl = {"scheduler": "EDF"}
                         if mode.get("retract"):
                             fl["retract_schedules"] = True
@@ -504,6 +523,64 @@ def s_adv(seed=0, max_n=3, bound=2, cap=1500, modes=None, clusters=("1x1", "2p")
                                 f"{' +cancel' if cancel else ''}",
                             adv=adv, tape_bound=bound, tape_cap=cap,
                             tape_bounded_kinds=["choice", "random", "sched"])
+
+
+def s_adv_cond(seed=0, bound=1, cap=4000, cancel=False, templates=None,
+               modes=None):
+    """The adversarial scheduler on the conditional templates: with whole task graphs
+    released it is offered (and by default places) *both* branches before the
+    conditional resolves, so every resolution meets SCHEDULED tasks on the untaken
+    branch -- the speculative-planner situation, for every branch outcome."""
+    modes = modes or {"rtg": {"rtg": True}, "rtg+retract": {"rtg": True, "retract": True}}
+    for tag, nodes in cond_templates():
+        if templates is not None and not any(tag.startswith(t) for t in templates):
+            continue
+        if tag.startswith("if2 p=(0.25") or tag.startswith("if2 p=(1.0"):
+            continue
+        names = [n["name"] for n in nodes]
+        profiles = [{"name": "p_" + nm,
+                     "execution_strategies": [strat(1 + (k % 2), CPU=1)]}
+                    for k, nm in enumerate(names)]
+        g = {"name": "G", "graph": nodes, "deadline_variance": [100, 100]}
+        g.update(RELEASES["one"])
+        wl = {"profiles": profiles, "graphs": [g]}
+        for ck in ("1x2", "2p"):
+            for mk, mode in modes.items():
+                adv = dict(mode, delays=[0, 2], cancel=cancel)
+                fl = {"scheduler": "EDF", "release_taskgraphs": True}
+                if mode.get("retract"):
+                    fl["retract_schedules"] = True
+                yield mk_world(wl, CLUSTERS_CPU[ck], fl, seed, tape=[],
+                               tag=f"S-adv-cond {tag} c={ck} m={mk}",
+                               adv=adv, tape_bound=bound, tape_cap=cap,
+                               tape_bounded_kinds=["choice", "random", "sched"])
+
+
+def s_plan_ms(policies, seed=0, max_n=2):
+    """Plan-ahead policies on tasks with *menus* (slow on CPU / fast on GPU) on a worker
+    with one unit of each, second graph instance arriving 1us later: later invocations
+    re-plan SCHEDULED tasks with another strategy."""
+    clus = cluster([dict(CPU=1, GPU=1)])
+    menus = [
+        [strat(3, CPU=1), strat(1, GPU=1)],
+        [strat(2, CPU=1)],
+        [strat(1, GPU=1), strat(4, CPU=1)],
+    ]
+    for n in range(1, max_n + 1):
+        names = names_for(n, seed)
+        for edges in dag_shapes(n):
+            for combo in itertools.product(range(len(menus)), repeat=n):
+                if all(len(menus[c]) == 1 for c in combo):
+                    continue
+                strategies = [menus[c] for c in combo]
+                for rk in ("two@1", "two@0"):
+                    for sl in ((50, 50), (100, 100)):
+                        wl = workload_from_dag(names, edges, strategies, RELEASES[rk], sl)
+                        for pk, pf in policies.items():
+                            yield mk_world(
+                                wl, clus, pf, seed, tape=[],
+                                tag=f"S-plan-ms n={n} e={edges} m={combo} r={rk} "
+                                    f"sl={sl} p={pk}")
 
 
 def count(gen):
@@ -563,3 +640,54 @@ def s_cw(seed=0, k_max=3, full=False):
                                     wl, cl, fl, seed, tape=[], preload=(ld == "preload"),
                                     tag=f"S-cw k={k} rel={rels} cls={cls} m={models} "
                                         f"c={ck} load={ld} goal={goal}")
+
+
+def s_cw_hetero(seed=0, k_max=3, full=False):
+    """Clockwork with strategies of *different* resource needs on a partly busy
+    worker: model MH runs fast alone on both GPUs (batch 1, 1us, GPU 2) or slowly in a
+    pair on one (batch 2, 3us, GPU 1); a long request of another model holds one GPU
+    from t=0, so the fast strategy cannot start while requests that are already too
+    late for the slow one are still worth keeping for the fast one -- the per-strategy
+    queues of the model then differ in length.  Every arrival vector in {0..3}^k and
+    every deadline class vector of k <= 3 MH requests."""
+    classes = {"hopeless": 1, "tight": 3, "loose": 10}
+    mh = {"name": "MH",
+          "loading_strategies": [{"batch_size": 1, "runtime": 1,
+                                  "resource_requirements": {"RAM:any": 1}}],
+          "execution_strategies": [
+              {"batch_size": 1, "runtime": 1, "resource_requirements": {"GPU:any": 2}},
+              {"batch_size": 2, "runtime": 3, "resource_requirements": {"GPU:any": 1}}]}
+    mb = {"name": "MB",
+          "loading_strategies": [{"batch_size": 1, "runtime": 1,
+                                  "resource_requirements": {"RAM:any": 1}}],
+          "execution_strategies": [
+              {"batch_size": 1, "runtime": 6, "resource_requirements": {"GPU:any": 1}}]}
+    clus = cluster([dict(GPU=2, RAM=2)])
+    for k in range(2, k_max + 1):
+        for rels in itertools.product((0, 1, 2, 3), repeat=k):
+            if list(rels) != sorted(rels):
+                continue
+            for cls in itertools.product(sorted(classes), repeat=k):
+                for blocker in ((True,) if not full else (True, False)):
+                    graphs = []
+                    if blocker:
+                        graphs.append({
+                            "name": "B0", "graph": [{"name": "R", "work_profile": "MB",
+                                                     "slo": 20}],
+                            "release_policy": "fixed", "period": 1, "invocations": 1,
+                            "start": 0, "deadline_variance": [0, 0]})
+                    for i in range(k):
+                        graphs.append({
+                            "name": f"Q{i}",
+                            "graph": [{"name": "R", "work_profile": "MH",
+                                       "slo": classes[cls[i]]}],
+                            "release_policy": "fixed", "period": 1, "invocations": 1,
+                            "start": rels[i], "deadline_variance": [0, 0]})
+                    wl = {"profiles": [mh, mb], "graphs": graphs}
+                    for goal in ("clockwork", "least_slack"):
+                        fl = {"scheduler": "Clockwork", "clockwork_goal": goal,
+                              "unique_work_profiles": True}
+                        yield mk_world(
+                            wl, clus, fl, seed, tape=[], preload=True,
+                            tag=f"S-cw-hetero k={k} rel={rels} cls={cls} "
+                                f"blocker={blocker} goal={goal}")
